@@ -1,7 +1,7 @@
 (* Evaluation of the C16 model on harness-written cases (correspondence check). *)
 From Coq Require Import List NArith ZArith String Bool.
 From V.Base Require Import Hex BigEndian.
-From V.C16 Require Import Model.
+From V.C16 Require Import Model Sha3 Header.
 Import ListNotations.
 Local Open Scope Z_scope.
 
@@ -16,7 +16,12 @@ Inductive case :=
 | CC (s : string) (obs : N)
   (* expanded secret scalar x, nonce k (both 32 bytes, little-endian, from the H5 exports), honest proof:
      its last 32 bytes must be (c*x + k) mod ell *)
-| CS (x k pi : string).
+| CS (x k pi : string)
+  (* genVrfMsg(random, delta) through the hook: observed message *)
+| CM (random : string) (delta : Z) (obs : string)
+  (* header prove value b of any length: observed lottery bytes VRFProof2Hash(tryZeroPadding(b)) and
+     ConsensusHelperImpl.VRFProve2Value(big(b)) bytes (32 bytes, big-endian, as hex) *)
+| CO (b obs_lottery : string).
 
 Definition P (mq pmin pmax pidx th : Z) : params :=
   {| maxqn := mq; pp_min := pmin; pp_max := pmax; pp_idx := pidx; thr := th |}.
@@ -48,4 +53,7 @@ Definition check (c : case) : bool :=
   | CS x k pi => let pb := unhex pi in
                  (le_val (proof_s pb) =? response (unhex x) (unhex k) (proof_c pb))%N
                  && (le_val (proof_c pb) <? ell25519)%N
+  | CM r d obs => bytes_eqb (gen_vrf_msg_sha3 (unhex r) d) (unhex obs)
+  | CO b obs => bytes_eqb (lottery_reads (unhex b)) (unhex obs)
+                && bytes_eqb (verify_gamma (unhex b)) (unhex obs)
   end.
